@@ -201,6 +201,7 @@ class LDAWrapper(LinearSolver):
                     x0_loc = x0.reshape(-1, 1).copy()
                 else:
                     x0_loc = x0[..., self._did_solve].copy()
+                x0_loc = x0_loc.astype(np.result_type(dtype, x0_loc, *x_data))
                 x0_loc[idia, ...] = 0
                 for x in x_data:
                     beta = x0_loc[isel, ...].T @ x.conj() / (x.conj() @ x)
